@@ -109,9 +109,31 @@ spec fn all_nodecl(ss: Seq<Statement>) -> bool { forall|i: int| 0 <= i < ss.len(
 uninterp spec fn global_table(namespaces: HashMap<FileOrLib, HashMap<String, Name>>, namespace_to_file: HashMap<NamespaceID, FileOrLib>,
                               namespace_id: usize, name: Seq<char>) -> Option<Name>;
 
-/// which namespace a qualifier `a.b.` denotes (uninterpreted: namespace_list is outside the unit)
-uninterp spec fn ns_table(namespaces: HashMap<FileOrLib, HashMap<String, Name>>, namespace_to_file: HashMap<NamespaceID, FileOrLib>,
-                          file_to_namespace: HashMap<FileOrLib, NamespaceID>, namespace_id: usize, a: ParserAssignable) -> Option<usize>;
+/// which namespace a qualifier `a.b.` denotes (written from the property: `a` is looked up in the
+/// current file's table, every further name in the table of the namespace found so far; the result is
+/// the id the resolver has recorded for that file)
+spec fn ns_table(namespaces: HashMap<FileOrLib, HashMap<String, Name>>, namespace_to_file: HashMap<NamespaceID, FileOrLib>,
+                 file_to_namespace: HashMap<FileOrLib, NamespaceID>, namespace_id: usize, a: ParserAssignable) -> Option<usize> decreases a {
+    match a.kind {
+        sylt_parser::AssignableKind::Read(ident) => ns_step(namespaces, namespace_to_file, file_to_namespace, namespace_id, ident.name@),
+        sylt_parser::AssignableKind::Access(prev, ident) => match ns_table(namespaces, namespace_to_file, file_to_namespace, namespace_id, *prev) {
+            Some(inner) => ns_step(namespaces, namespace_to_file, file_to_namespace, inner, ident.name@),
+            None => None,
+        },
+        _ => None,
+    }
+}
+/// one step: `name` names a namespace in the table of `namespace_id`
+spec fn ns_step(namespaces: HashMap<FileOrLib, HashMap<String, Name>>, namespace_to_file: HashMap<NamespaceID, FileOrLib>,
+                file_to_namespace: HashMap<FileOrLib, NamespaceID>, namespace_id: usize, name: Seq<char>) -> Option<usize> {
+    match global_table(namespaces, namespace_to_file, namespace_id, name) {
+        Some(Name::Namespace(f, _)) => if file_to_namespace@.contains_key(f) { Some(file_to_namespace@[f]) } else { None },
+        _ => None,
+    }
+}
+/// assumption A-hash-fileorlib: the derived Hash / Eq of FileOrLib are a lawful hash-table key
+#[verifier::external_body]
+proof fn axiom_fileorlib_hash_key() ensures vstd::std_specs::hash::obeys_key_model::<FileOrLib>() {}
 
 
 // ---- C14: the resolver's output is the DESUGARED form of the parse tree ----------------------------
@@ -187,6 +209,21 @@ spec fn rel_a(a: ParserAssignable, e: Expression) -> bool decreases a {
     }
 }
 
+/// R-helper of namespace_list: `opt.map(|f| table.get(f).cloned()).flatten()`
+trait AndThenFile: Sized {
+    spec fn file_of(self) -> Option<FileOrLib>;
+    fn and_then_file(self, table: &HashMap<FileOrLib, NamespaceID>) -> (r: Option<usize>)
+        requires vstd::std_specs::hash::obeys_key_model::<FileOrLib>(),
+        ensures r == (match self.file_of() { Some(f) => if table@.contains_key(f) { Some(table@[f]) } else { None }, None => None });
+}
+impl<'a> AndThenFile for Option<&'a FileOrLib> {
+    spec fn file_of(self) -> Option<FileOrLib> { match self { Some(f) => Some(*f), None => None } }
+    fn and_then_file(self, table: &HashMap<FileOrLib, NamespaceID>) -> (r: Option<usize>)
+    {
+        broadcast use vstd::std_specs::hash::group_hash_axioms;
+        match self { Some(f) => match table.get(f) { Some(n) => Some(*n), None => None }, None => None }
+    }
+}
 impl Resolver {
     /// the global table, as far as the functions under contract are concerned (lookup_global is
     /// outside: it indexes two HashMaps keyed by placeholder types)
@@ -273,11 +310,32 @@ impl Resolver {
 //@ end
 //@ fn sylt-compiler/src/name_resolution.rs namespace_list
 //@   in Resolver
-//@   mode assumed
+//@   props C09 C07
+//@   attr #[verifier::exec_allows_no_decreases_clause]
 //@   ret r
+//@   rewrite equivalent
+//@- match self
+//@-     .namespace_list(namespace_id, prev)
+//@-     .map(|new_namespace| self.lookup_global(new_namespace, &ident.name))
+//@-     .flatten()
+//@- {
+//@+ match (match self.namespace_list(namespace_id, prev) { Some(new_namespace) => self.lookup_global(new_namespace, &ident.name), None => None })
+//@+ {
+//@   why Option::map followed by flatten is this match
+//@   endrewrite
+//@   rewrite equivalent
+//@- .map(|file_or_lib| self.file_to_namespace.get(file_or_lib).cloned())
+//@- .flatten()
+//@+ .and_then_file(&self.file_to_namespace)
+//@   why Option::map followed by flatten, with get(..).cloned() inside: written as the helper and_then_file below (a match and a copy of the usize)
+//@   endrewrite
 //@   spec
-        ensures r == ns_table(self.namespaces, self.namespace_to_file, self.file_to_namespace, namespace_id, *assignable),
+        ensures r == self.ns_of(namespace_id, *assignable), //# C09 namespace_list.every_step_of_a_qualifier_is_looked_up_in_the_namespace_found_so_far
 //@   endspec
+//@   ghost entry
+        broadcast use vstd::std_specs::hash::group_hash_axioms;
+        proof { axiom_fileorlib_hash_key(); }
+//@   endghost
 //@ end
 //@ fn sylt-compiler/src/name_resolution.rs namespace_type_list
 //@   in Resolver
